@@ -178,8 +178,9 @@ func minimizeRawSteps(p runner.Prop, path string, doc, wrapper map[string]json.R
 		fmt.Fprintln(os.Stderr, err)
 		return 2
 	}
-	var kind string
+	var kind, ident string
 	_ = json.Unmarshal(doc["kind"], &kind)
+	_ = json.Unmarshal(doc["ident"], &ident)
 	var seed int64
 	_ = json.Unmarshal(doc["seed"], &seed)
 	wk, err := p.NewWorker("quick", seed)
@@ -203,7 +204,9 @@ func minimizeRawSteps(p runner.Prop, path string, doc, wrapper map[string]json.R
 		runs++
 		res := wk.Replay(encode(st))
 		for _, v := range res.Viol {
-			if v.Kind == kind {
+			// same kind AND same attribution: a shrunk history that is identified as a
+			// recorded finding is a different failure
+			if v.Kind == kind && v.Ident == ident {
 				return true
 			}
 		}
